@@ -434,6 +434,32 @@ def conclude(res, lean, **evkw):
     return rc
 
 
+def concurrent_pass(res, cfg, lines, cases, impl, ops=None, threads=8, repeat=8, max_lines=4000):
+    """The same requests once more with `threads` threads of ONE runner process answering them at the same time, each request
+    executed `repeat` times in a row on its thread: every answer must be the single-threaded answer (statics, thread-locals shared
+    by mistake, locks released too early).  Requests whose answer is random or that need gigabytes are left out."""
+    skip = set(PROFILE_DEPENDENT_OPS) | {"randh", "stream_huge", "poly1305_huge", "pwhash_big", "pwhash_hash_preset", "pwhash_keypair_preset", "pwhash_str", "pwhash_defaults", "so_pwhash_str", "pwhash_rehash_parsed", "prot", "lockedctor"}
+    sel = [(c, l) for c, l in zip(cases, lines) if c.line.split(" ")[0] not in skip and (ops is None or c.line.split(" ")[0] in ops)
+           and impl.get(c.id, ["n/a"])[0] not in ("n/a", "missing") and not impl.get(c.id, [""])[0].startswith(("abort", "panic"))]
+    if len(sel) > max_lines:
+        sel = sel[:: len(sel) // max_lines + 1]
+    if not sel:
+        return
+    env = dict(ENV, RUNNER_THREADS=str(threads), RUNNER_REPEAT=str(repeat))
+    mt = run_engine(build_runner(cfg), [l for _, l in sel], env=env, nproc=2, _inner=True)
+    nd = 0
+    for c, _ in sel:
+        a, b = impl.get(c.id, ["missing"])[0], mt.get(c.id, ["missing"])[0]
+        res.evaluations += 1
+        res.count("concurrent/" + c.line.split(" ")[0])
+        if a != b:
+            nd += 1
+            if nd <= 10:
+                res.violations.append({"kind": "impl(concurrent)!=impl(sequential)", "line": c.line, "answers": {"impl(one thread)": a[:1500], "impl(%d threads at once)" % threads: b[:1500]},
+                                       "why": "the answer changes when other threads use the library at the same time (%d threads, each request %d times in a row)" % (threads, repeat)})
+    res.extra["concurrent_pass"] = "%d requests answered again by %d threads at once, %d times each; %d differing" % (len(sel), threads, repeat, nd)
+
+
 def standard_compare(res, cases, impl, model, check_sodium=True, check_spec=True, check_model=True):
     """Generic 4-column comparison.  impl: {id:[impl, sodium, alloc]}, model: {id:[model, spec]}."""
     for c in cases:
